@@ -238,10 +238,16 @@ func cfgStatusStmts(n map[string]any) string {
 	if v, ok := n["status"].(string); ok {
 		s += " status " + v + ";"
 	}
+	for _, f := range carr(n, "iff") {
+		s += " if-feature " + f.(string) + ";"
+	}
 	return s
 }
 
 func renderNode(b *strings.Builder, n map[string]any, ind string) {
+	if cbool(n, "removed") {
+		return
+	}
 	kind := cstr(n, "k")
 	name := cstr(n, "n")
 	switch kind {
